@@ -142,8 +142,8 @@ def asym_filter(dsw, k, cfg, banned):
 def generate(ctx):
     rng = ctx.rng
     j = 0
-    for k in range(1, 7):                      # filters accepting exactly 1, 2, 3 and 5 k-mers, at every order
-        for count in (1, 2, 3, 5):
+    for k in range(1, 9):                      # filters accepting exactly 1, 2, 3 and 5 k-mers, at every order 1..8
+        for count in ((1, 2, 3, 5) if k <= 6 else (1, 3)):
             if ctx.mine(j):
                 yield "find", dict(k=k, kind="user", spec=dict(pred="few", seed=rng.getrandbits(30), count=count, p=0, w=1, bias=0,
                                                               ret=rng.choice(["bool", "npbool", "int"]), style="documented"))
@@ -167,7 +167,7 @@ def generate(ctx):
     for _ in range(ctx.pick(600, 5000)):
         k = rng.choice(ctx.pick([1, 3, 3, 4], [1, 3, 4, 4, 5, 5]))
         mask = gens.rand_mask(rng, k, rng.choice([0.02, 0.2, 0.5, 0.8, 0.98, 1.0]))
-        yield "valid_graph", dict(k=k, mask=G.mask_to_hex(mask), dtype=rng.choice(["bool", "int64", "int8", "uint8"]), fam="random")
+        yield "valid_graph", dict(k=k, mask=G.mask_to_hex(mask), dtype=rng.choice(["bool", "int64", "int8", "uint8", "truthy"]), fam="random")
     preds = ["forbidden", "forbidden", "first-ne-last", "positional", "prefix", "parity", "all", "none", "one", "doc-gc"]
     for _ in range(ctx.pick(600, 5000)):
         k = rng.choice(ctx.pick([1, 2, 3, 4, 5], [1, 2, 3, 4, 5, 6]))
@@ -187,7 +187,9 @@ def check_valid_graph(ctx, case):
     dsw = import_dsw()
     k = case["k"]
     n = 4 ** k
-    mask = G.hex_to_mask(k, case["mask"], dtype=case["dtype"])
+    mask = G.hex_to_mask(k, case["mask"], dtype=case["dtype"] if case["dtype"] != "truthy" else "int64")
+    if case["dtype"] == "truthy":      # marked = any non-zero value (a sum of masks, counts, weights)
+        mask = mask * np.array([ctx.rng.choice([1, 2, 3, 7]) for _ in range(n)])
     S = {i for i in range(n) if mask[i]}
     fm = frozen(mask)
     guard = ArgGuard(vertices=fm)
@@ -199,6 +201,12 @@ def check_valid_graph(ctx, case):
         except Exception:  # noqa - not the call under observation
             pass
         ctx.cls("valid-graph|preceded by an unrelated coding-graph call")
+    if ctx.rng.random() < (0.02 if case["fam"] == "exhaustive" else 0.3):
+        # G3 noise: a complete accessor of the same order was requested earlier and edited in place by its owner
+        for comp in (dsw.get_complete_accessor(k), dsw.get_complete_accessor(observed_length=k)):   # both calling styles
+            for _e in range(3):
+                comp[ctx.rng.randrange(n), ctx.rng.randrange(4)] = -1
+        ctx.cls("valid-graph|preceded by an edited complete accessor")
     out = monitored(dsw.connect_valid_graph, 200 * n + 5000, k, fm)
     if out.kind == "ok" and ctx.rng.random() < 0.05:
         checked, same, second = alias.repeat_after_scramble(dsw.connect_valid_graph, (k, fm), {}, out.value)   # G1
@@ -327,7 +335,8 @@ def floors(agg, tier):
                        ("user|style=dna_sequence", 50), ("user|style=posonly", 50), ("user|ret=npbool", 50), ("user|ret=int", 50),
                        ("user|pred=positional", 30), ("user|pred=doc-gc", 30), ("local filter", 300),
                        ("valid-graph|empty mask", 2), ("valid-graph|non-empty mask", 100000),
-                       ("valid-graph|preceded by an unrelated coding-graph call", 1000), ("filter object edited between calls", 100),
+                       ("valid-graph|preceded by an unrelated coding-graph call", 1000), ("valid-graph|preceded by an edited complete accessor", 500),
+                       ("filter accepting 1 k-mer(s) at k=8", 1), ("filter object edited between calls", 100),
                        ("user|subclass of LocalBioFilter with an asymmetric rule", 100), ("filter accepting 1 k-mer(s) at k=6", 1),
                        ("filter accepting 2 k-mer(s) at k=6", 1), ("find repeated after the first mask was scrambled", 100)):
         if c.get(name, 0) < need:
